@@ -604,7 +604,7 @@ def R5_pinocchio_superset(run):
                           loc=h.loc(t["l"]), detail="TickArraysMut::load(%s, %s, key(whirlpool))" % tuple(names))
     run.floor("R5", "translated constraints and loads", n, 70)
     # loader helpers really check
-    for path, codes in (("pinocchio::utils::account_load::check_owner_program", {"AccountOwnedByWrongProgram"}), ("pinocchio::utils::account_load::check_discriminator", {"AccountDiscriminatorMismatch", "AccountDiscriminatorNotFound"}),
+    for path, codes in (("pinocchio::utils::account_load::check_discriminator", {"AccountDiscriminatorMismatch", "AccountDiscriminatorNotFound"}),
                         ("pinocchio::utils::verify::verify_address", {"ConstraintAddress"}), ("pinocchio::utils::verify::verify_constraint", {"ConstraintRaw"})):
         fn = facts.need_fn(path)
         got = set()
@@ -612,20 +612,23 @@ def R5_pinocchio_superset(run):
             if at.true_fail != at.false_fail:
                 got |= cfg.error_codes_from(fn, at.true_targets[0] if at.true_fail else at.false_targets[0])
         run.check("R5", "helper@" + path.rsplit("::", 1)[-1], codes <= got, "%s fails with %s, expected %s" % (path, sorted(got), sorted(codes)), loc=fn.loc(), detail="fails with " + ", ".join(sorted(codes)))
+    from rules.common import owner_tests
     for path in ("pinocchio::utils::account_load::load_account", "pinocchio::utils::account_load::load_account_mut"):
         fn = facts.need_fn(path)
-        cs = [(bi, callee_path(t)) for bi, t in fn.calls() if (callee_path(t) or "").endswith(("check_owner_program", "check_discriminator"))]
-        ok = {c.rsplit("::", 1)[-1] for _, c in cs} == {"check_owner_program", "check_discriminator"} and all(cfg.must_pass_call(fn, bi)[0] for bi, _ in cs)
+        # (check_owner_program is always analysed inlined: the owner test is an `is_owned_by(&WHIRLPOOL_PROGRAM_ID)` atom here)
+        ots = [o for o in owner_tests(fn) if o[1] == "WHIRLPOOL_PROGRAM_ID" and "AccountOwnedByWrongProgram" in o[3]]
+        ok = len(ots) == 1
+        if ok:
+            at, neg = ots[0][0], ots[0][4]
+            ok = not cfg.success_reach(fn, 0, cut_edges={(at.block, tg) for tg in (at.false_targets if neg else at.true_targets)})
+        cs = [(bi, callee_path(t)) for bi, t in fn.calls() if (callee_path(t) or "").endswith("check_discriminator")]
+        ok = ok and len(cs) == 1 and all(cfg.must_pass_call(fn, bi)[0] for bi, _ in cs)
         pvf = prov_of(fn)
         for bi, c in cs:
             t = fn.blocks[bi]["t"]
-            if c.endswith("check_owner_program"):
-                k = pvf.operand(t["a"][1], bi, len(fn.blocks[bi]["s"]))
-                ok = ok and mentions(k, lambda s: s[0] == "const" and s[2] and s[2].endswith("WHIRLPOOL_PROGRAM_ID"))
-            else:
-                k = pvf.operand(t["a"][1], bi, len(fn.blocks[bi]["s"]))
-                ok = ok and mentions(k, lambda s: s[0] == "const" and s[2] and "DISCRIMINATOR" in s[2])
-        run.check("R5", "typed-load@" + path.rsplit("::", 1)[-1], ok, "%s does not must-pass check_owner_program(WHIRLPOOL_PROGRAM_ID) and check_discriminator(T::DISCRIMINATOR)" % path, loc=fn.loc(),
+            k = pvf.operand(t["a"][1], bi, len(fn.blocks[bi]["s"]))
+            ok = ok and mentions(k, lambda s: s[0] == "const" and s[2] and "DISCRIMINATOR" in s[2])
+        run.check("R5", "typed-load@" + path.rsplit("::", 1)[-1], ok, "%s does not must-pass the owner test against WHIRLPOOL_PROGRAM_ID and check_discriminator(T::DISCRIMINATOR)" % path, loc=fn.loc(),
                   detail="owner == program && discriminator == T::DISCRIMINATOR")
 
 
